@@ -7,3 +7,15 @@ SPEC = c01.spec("C04", "pf_c04")
 
 def run(ctx):
     vf.standard_run(ctx, SPEC)
+
+
+def replay(ctx, path):
+    """Re-run the stored case: the harness is deterministic in (seed, tier), so the
+    generation is repeated with the seed / tier recorded in the replay file and
+    evaluated again (the failing op reappears at the same index)."""
+    import json
+    d = json.load(open(path))
+    ctx.seed = int(d.get("seed", ctx.seed))
+    ctx.tier = d.get("tier", ctx.tier)
+    run(ctx)
+    return vf.finish(ctx)
